@@ -801,5 +801,47 @@ func TestC07(t *testing.T) {
 		Assumptions:     []string{"independent TWKB reader (internal/codec/twkb.go) follows the TWKB specification", "math/big", "domain restricted to |ordinate x 10^p| < 2^52: beyond that float64 cannot resolve the grid and the int64 varint cannot hold the value"},
 		Gen:             c07Gen,
 		Check:           c07Check,
+		Enumerate:       c07Enumerate,
 	})
+}
+
+// c07Enumerate: counts that need more than one varint byte (128 and up, 16384 and up): points of a line, points
+// of a MultiPoint, rings of a polygon, members of Multi* and collections, entries of an id list; integer ordinates.
+func c07Enumerate(cx *h.Ctx, yield func(C07Case)) []string {
+	sq := func(x0, y0, x1, y1 int) []gm.F {
+		return gm.Fs(float64(x0), float64(y0), float64(x1), float64(y0), float64(x1), float64(y1), float64(x0), float64(y1), float64(x0), float64(y0))
+	}
+	for vi, k := range []int{127, 128, 129, 300, 16383, 16384, 16385} {
+		var line []gm.F
+		mpt, mls, mpg, gc := gm.G{T: gm.MultiPoint}, gm.G{T: gm.MultiLineString}, gm.G{T: gm.MultiPolygon}, gm.G{T: gm.GeometryCollection}
+		poly := gm.G{T: gm.Polygon, Rings: [][]gm.F{sq(0, 0, 4*k, 4)}}
+		for i := 0; i < k; i++ {
+			x := float64(4 * i)
+			line = append(line, gm.F(x), gm.F(float64(i%3)))
+			mpt.Mem = append(mpt.Mem, gm.G{T: gm.Point, Co: gm.Fs(x, float64(i%5))})
+			if k <= 300 {
+				mls.Mem = append(mls.Mem, gm.G{T: gm.LineString, Co: gm.Fs(x, 0, x+2, 3)})
+				mpg.Mem = append(mpg.Mem, gm.G{T: gm.Polygon, Rings: [][]gm.F{sq(4*i, 0, 4*i+2, 2)}})
+				gc.Mem = append(gc.Mem, []gm.G{{T: gm.Point, Co: gm.Fs(x, 1)}, {T: gm.LineString, Co: gm.Fs(x, 2, x+1, 3)}}[i%2])
+				if i > 0 {
+					poly.Rings = append(poly.Rings, gm.Fs(x+1, 1, x+2, 1, x+1, 2, x+1, 1))
+				}
+			}
+		}
+		gs := []gm.G{{T: gm.LineString, Co: line}, mpt}
+		if k <= 300 {
+			gs = append(gs, mls, mpg, gc, poly)
+		}
+		for gi, g := range gs {
+			c := C07Case{G: g, PrecXY: (vi + gi) % 3, PrecZ: -99, PrecM: -99, Size: (vi+gi)%2 == 0, BBox: gi%2 == 0, Close: gi%3 == 0}
+			if n := len(g.Mem); n > 0 && (vi+gi)%2 == 1 {
+				c.IDs = make([]int64, n)
+				for j := range c.IDs {
+					c.IDs[j] = int64(j*j) - 70
+				}
+			}
+			yield(c)
+		}
+	}
+	return []string{"lines and MultiPoints of 127..129, 300 and 16383..16385 points, Multi*/collections of 127..300 members and polygons of 127..300 rings, with and without size / bbox / id-list headers (counts and sizes that need 2 and 3 varint bytes)"}
 }
